@@ -16,11 +16,16 @@ for p in $ids; do
       known-*) base=HEAD;;
       *) c=$(grep "^fixed: property=$p " KNOWN_FINDINGS.txt | grep -F "$b" | head -1 | awk '{print $3}')
          [ -z "$c" ] && c=$(grep "^fixed: property=$p " KNOWN_FINDINGS.txt | grep -F "${b%.json}" | head -1 | awk '{print $3}')
+         c=${c%%+*}   # a finding repaired by several commits: the tree before the first of them
          if [ -n "$c" ]; then base="$c^"; else base=$ORIG; fi;;
     esac
     git -C /repo worktree remove --force $WT 2>/dev/null; git -C /repo worktree prune
     git -C /repo worktree add -q --detach $WT $base || { echo "WORKTREE-FAILED $f $base"; continue; }
-    o=$(VERIF_REPO=$WT VERIF_WORKROOT=/var/tmp/chf-verif-orig ./check $p --replay $f 2>&1 | grep -a "VIOLATION\|replay passes\|error" | head -1 | cut -c1-160)
+    tries=1; [ $p = C09 ] && tries=6   # schedule-dependent findings: a replay shows them only under the right interleaving
+    for t in $(seq $tries); do
+      o=$(VERIF_REPO=$WT VERIF_WORKROOT=/var/tmp/chf-verif-orig ./check $p --replay $f 2>&1 | grep -a "VIOLATION\|replay passes\|error" | head -1 | cut -c1-160)
+      case "$o" in VIOLATION*) break;; esac
+    done
     case "$o" in VIOLATION*) r=ok;; *) r=NOT-FAILING-BEFORE-FIX;; esac
     r2=""
     case "$b" in fixed-*) o2=$(./check $p --replay $f 2>&1 | grep -a "VIOLATION\|replay passes\|error" | head -1 | cut -c1-100)
